@@ -907,3 +907,208 @@ def run_history_x(ops, work, tag="hx", want_digests=False):
     os.remove(path)
     return {"ops_filled": ops, "steps": steps, "digests": digests if want_digests else None, "validations": im.validations,
             "final_validation": final_validation, "root_path": root_path}
+
+
+# ============================================================================= two workspaces, copies between them
+def gen_history_w(rng, length):
+    """ops carry "ws"; workspace 0 is built with the usual ops, subtrees are copied into workspace 1 (identifiers kept when
+    free there), workspace 1 removes / renames / sweeps / re-opens copies; the forced pattern "copy, detach the copy through
+    its parent, change the source, copy again" produces the stale-node re-use without any caller-supplied identifier."""
+    ops = []
+    par = {("G", 0): None}
+    kids = {("G", 0): []}
+    in_b = {}            # key -> parent key in workspace 1 (copies that kept their identifier)
+    nxt = [1]
+    tok = [10]
+
+    def t():
+        tok[0] += 1
+        return tok[0]
+
+    def create(kind, parent):
+        k = (kind, nxt[0])
+        nxt[0] += 1
+        par[k] = parent
+        kids[k] = []
+        kids[parent].append(k)
+        ops.append({"ws": 0, "op": "create", "kind": kind, "n": k[1], "parent": list(parent), "name": t(), "arr": t() if kind != "G" else 0})
+        return k
+
+    def subtree(k):
+        out = [k]
+        for c in kids.get(k, []):
+            out += subtree(c)
+        return out
+
+    g = create("G", ("G", 0))
+    o = create("O", g)
+    for _ in range(rng.range(1, 3)):
+        create("D", o)
+    while len(ops) < length:
+        w = rng.weighted([("create", 20), ("set", 14), ("pg", 8), ("copy_x", 18), ("b_rm_parent", 10), ("b_rm_ws", 6), ("b_set", 8),
+                          ("b_sweep", 6), ("reopen", 6), ("a_rm", 4)])
+        live = [k for k in par if k != ("G", 0)]
+        if w == "create":
+            kind = rng.weighted([("G", 25), ("O", 35), ("D", 40)])
+            cands = [k for k in par if k[0] == ("O" if kind == "D" else "G")]
+            if cands:
+                create(kind, rng.choice(sorted(cands)))
+        elif w == "set" and live:
+            e = rng.choice(sorted(live))
+            if e[0] != "G" and rng.chance(50):
+                ops.append({"ws": 0, "op": "set_arr", "e": list(e), "v": t()})
+            else:
+                ops.append({"ws": 0, "op": "set_name", "e": list(e), "v": t()})
+        elif w == "pg":
+            obs_ = [k for k in par if k[0] == "O" and kids.get(k)]
+            if obs_:
+                ob = rng.choice(sorted(obs_))
+                ms = rng.sample(kids[ob], rng.range(1, min(2, len(kids[ob]))))
+                ops.append({"ws": 0, "op": "pg_add", "o": list(ob), "name": 500 + rng.range(1, 2), "members": [list(m) for m in ms], "g": None})
+        elif w == "copy_x":
+            pool = [k for k in live if k[0] in "GO"]
+            if pool:
+                e = rng.choice(sorted(pool))
+                qs = [("G", 0)] + [k for k in in_b if k[0] == "G"]
+                q = rng.choice(sorted(qs))
+                ops.append({"ws": 0, "op": "copy_x", "e": list(e), "q": list(q), "ids": None})
+                for k in subtree(e):
+                    in_b.setdefault(k, q if k == e else par[k])
+                if rng.chance(45):   # forced pattern
+                    ops.append({"ws": 1, "op": "rm_parent", "e": list(e)})
+                    for k in subtree(e):
+                        in_b.pop(k, None)
+                    if rng.chance(50):
+                        ops.append({"ws": 0, "op": "set_name", "e": list(e), "v": t()})
+                    if rng.chance(30):
+                        ops.append({"ws": 1, "op": "sweep", "kind": rng.choice("GOD")})
+                    ops.append({"ws": 0, "op": "copy_x", "e": list(e), "q": [ "G", 0], "ids": None})
+                    for k in subtree(e):
+                        in_b.setdefault(k, ("G", 0) if k == e else par[k])
+        elif w in ("b_rm_parent", "b_rm_ws") and in_b:
+            e = rng.choice(sorted(in_b))
+            ops.append({"ws": 1, "op": "rm_parent" if w == "b_rm_parent" else "rm_ws", "e": list(e)})
+            for k in [x for x in subtree(e)] + [e]:
+                in_b.pop(k, None)
+        elif w == "b_set" and in_b:
+            e = rng.choice(sorted(in_b))
+            ops.append({"ws": 1, "op": "set_name", "e": list(e), "v": t()})
+        elif w == "b_sweep":
+            ops.append({"ws": 1, "op": "sweep", "kind": rng.choice("GOD")})
+        elif w == "reopen":
+            ops.append({"ws": rng.below(2), "op": "reopen"})
+        elif w == "a_rm" and live:
+            e = rng.choice(sorted(live))
+            ops.append({"ws": 0, "op": rng.choice(["rm_ws", "rm_parent"]), "e": list(e)})
+            for k in subtree(e):
+                par.pop(k, None)
+                kids.pop(k, None)
+            for lst in kids.values():
+                if e in lst:
+                    lst.remove(e)
+    ops += [{"ws": 1, "op": "reopen"}, {"ws": 0, "op": "reopen"}]
+    return ops
+
+
+def run_history_w(ops, work, tag="hw"):
+    import copy
+    import gc
+    import os
+
+    ops = copy.deepcopy(ops)
+    paths = [f"{work}/{tag}_a.geoh5", f"{work}/{tag}_b.geoh5"]
+    for p in paths:
+        if os.path.exists(p):
+            os.remove(p)
+    ims = [ImplX(paths[0]), ImplX(paths[1])]
+    steps = []
+    for op in ops:
+        i = op["ws"]
+        try:
+            if op["op"] == "copy_x":
+                src, tgt = ims[i], ims[1 - i]
+                e, q = src.find(op["e"]), tgt.find(op["q"])
+                from geoh5py.groups import Group
+                from geoh5py.objects import ObjectBase
+
+                if e is None or q is None or not isinstance(q, Group) or e is src.ws.root:
+                    op["ids"] = []
+                    outc = "refused"
+                else:
+                    c = e.copy(parent=q)
+                    drawn = []
+
+                    def walk(a, b):
+                        if a.uid != b.uid:
+                            drawn.append(b.uid.int - 1)
+                        ka = [k for k in getattr(a, "children", []) if hasattr(k, "entity_type")]
+                        kb = [k for k in getattr(b, "children", []) if hasattr(k, "entity_type")]
+                        if isinstance(a, ObjectBase):
+                            for x, y in zip(ka, kb):
+                                if x.uid != y.uid:
+                                    drawn.append(y.uid.int - 1)
+                            for x, y in zip(a.property_groups or [], b.property_groups or []):
+                                if x.uid != y.uid:
+                                    drawn.append(y.uid.int - 1)
+                        else:
+                            for x, y in zip(ka, kb):
+                                walk(x, y)
+
+                    walk(e, c)
+                    op["ids"] = drawn
+                    outc = "done"
+                    del c, e, q
+                gc.collect()
+            else:
+                outc = ims[i].apply(op)
+        except Exception as ex:  # noqa: BLE001
+            outc = f"error:{type(ex).__name__}:{str(ex)[:120]}"
+        steps.append({"outcome": outc, "a": {"mem": ims[0].dump_mem(), "file": ims[0].dump_file()},
+                      "b": {"mem": ims[1].dump_mem(), "file": ims[1].dump_file()}})
+    vals = []
+    for im, p in zip(ims, paths):
+        im.ws.close()
+        vals.append(validate_geoh5(p))
+        os.remove(p)
+    return {"w": True, "ops_filled": ops, "steps": steps, "validations": [im.validations for im in ims], "final_validation": vals}
+
+
+def _side_term(d):
+    m = []
+    for r in d["mem"]:
+        a = cattrs_x(r)
+        if a is None or not (_ok_key(r["key"]) and _ok_key(r["parent"]) and r["name"] >= 0 and r["arr"] >= 0):
+            return None
+        m.append("(%s, %s, %s, %s)" % (ckey(r["key"]), a, ckey(r["parent"]), clist(ckey(k) for k in r["kids"])))
+    fr = []
+    for r in d["file"]["nodes"]:
+        a = cattrs_x(r)
+        if a is None or not _ok_key(r["key"]) or r["name"] < 0 or r["arr"] < 0:
+            return None
+        links = clist("(%s, %s)" % (ckey(l[0]), "None" if l[1] is None else f"Some {cbool(l[1])}") for l in r["links"])
+        fr.append("(%s, %s, %s)" % (ckey(r["key"]), a, links))
+    root = d["file"]["root"]
+    rt = "None" if root is None else "Some (%s, %s)" % (ckey(root[0]), "None" if root[1] is None else f"Some {cbool(root[1])}")
+    return f"({clist(m)}, ({clist(fr)}, {rt}))"
+
+
+def wop_term(op):
+    i = "true" if op["ws"] == 1 else "false"
+    if op["op"] == "copy_x":
+        return f"CopyX {i} {ckey(op['e'])} {ckey(op['q'])} {clist(cN(x) for x in (op['ids'] or []))}"
+    return f"On {i} ({cop_x(op)})"
+
+
+def world_case_term(ops, steps):
+    # same truncation rule as the single-workspace stream
+    for k, (op, st) in enumerate(zip(ops, steps)):
+        if op["op"] == "rm_ws" and st["outcome"] == "raised" and k > 0 and any(r.get("pgs") for side in ("a", "b") for r in steps[k - 1][side]["mem"]):
+            ops, steps = ops[:k], steps[:k]
+            break
+    rows = []
+    for st in steps:
+        a, b = _side_term(st["a"]), _side_term(st["b"])
+        if a is None or b is None or st["outcome"] not in OUTC:
+            return "false"
+        rows.append(f"({OUTC[st['outcome']]}, {a}, {b})")
+    return "check_world %s %s" % (clist(wop_term(o) for o in ops), clist(rows))
